@@ -163,3 +163,38 @@ outer:
 	}
 	return s*10 + c
 }
+
+// large structs passed and returned by value around mutations of the source
+type big struct{ a, b, c int }
+
+func (b *big) scale(k int) { b.a *= k; b.b *= k; b.c *= k }
+func sumBig(b big) int     { return b.a + b.b + b.c }
+func mkBig(x int) big      { return big{x, x + 1, x + 2} }
+
+func ByvalAfterMutation(x, k int) int {
+	v := mkBig(x)
+	p := &v
+	old := *p
+	p.scale(k)
+	return sumBig(old)*1000 + sumBig(*p)
+}
+
+func bigSnap(p *big) big {
+	old := *p
+	p.a = 77
+	return old
+}
+
+func BigSnapshot(x int) int {
+	v := mkBig(x)
+	o := bigSnap(&v)
+	return o.a*1000 + v.a
+}
+
+func pick(f func(big) int, b big) int { return f(b) }
+
+func ByvalClosure(x, k int) int {
+	v := mkBig(x)
+	f := func(b big) int { v.scale(k); return b.a + v.a }
+	return pick(f, v)*10 + sumBig(v)
+}
